@@ -19,9 +19,10 @@ VARIABLES l,        \* next line to consume
           obs,      \* [Nodes -> Seq(Evs)]: what the driver's readers actually received from Events()
           ended,    \* the run has logged "end" (every live subscriber was drained up to the sentinel)
           timeouts, \* subscribers a reader timed out on while an event was owed
-          blocked   \* API calls that did not return: set of <<kind, node>>
+          blocked,  \* API calls that did not return: set of <<kind, node>>
+          busy      \* loops between their "recv" and "fwdone" lines (in the middle of an iteration)
 
-tvars == <<vars, l, obs, ended, timeouts, blocked>>
+tvars == <<vars, l, obs, ended, timeouts, blocked, busy>>
 
 T == Trace[l]
 Is(k) == l <= Len(Trace) /\ T.k = k
@@ -29,7 +30,7 @@ Is(k) == l <= Len(Trace) /\ T.k = k
 (* every run (the lines after a "reset" line up to the next one) is a behaviour of its own *)
 TInit == /\ Init /\ l \in {i + 1 : i \in {j \in 1..Len(Trace) : Trace[j].k = "reset"}}
          /\ obs = [n \in Nodes |-> <<>>] /\ ended = FALSE
-         /\ timeouts = {} /\ blocked = {}
+         /\ timeouts = {} /\ blocked = {} /\ busy = {}
 
 Same(xs) == UNCHANGED xs
 Step == l' = l + 1
@@ -43,7 +44,7 @@ ONew ==  \* newSubscriber, inside the parent's subch case
   /\ kids' = [kids EXCEPT ![T.n] = @ \cup {T.c}]
   /\ buf' = [buf EXCEPT ![T.c] = T.buf]
   /\ start' = [start EXCEPT ![T.c] = IF T.n = Root THEN Len(published) ELSE Len(delivered[T.n])]
-  /\ Same(<<cur, todo, stopReq, published, delivered, obs, ended, timeouts, blocked>>)
+  /\ Same(<<cur, todo, stopReq, published, delivered, obs, ended, timeouts, blocked, busy>>)
 
 ORecv ==  \* case ev := <-b.pubch (after buffering, before the fan-out)
   /\ Is("recv")
@@ -52,19 +53,21 @@ ORecv ==  \* case ev := <-b.pubch (after buffering, before the fan-out)
   /\ todo' = [x \in Nodes |-> IF x = T.n THEN RunningKids(T.n)
                               ELSE IF T.n # Root /\ x = par[T.n] THEN todo[x] \ {T.n} ELSE todo[x]]
   /\ cur' = Norm([cur EXCEPT ![T.n] = T.ev], todo')
+  /\ busy' = busy \cup {T.n}
   /\ Same(<<st, par, kids, stopReq, delivered, start, obs, ended, timeouts, blocked>>)
 
 OFwdone ==  \* the fan-out loop of the pubch case is over
   /\ Is("fwdone")
   /\ todo' = [todo EXCEPT ![T.n] = {}]
   /\ cur' = Norm(cur, todo')
+  /\ busy' = busy \ {T.n}
   /\ Same(<<st, par, kids, buf, stopReq, published, delivered, start, obs, ended, timeouts, blocked>>)
 
 OEmit ==  \* case outch <- curev
   /\ Is("emit")
   /\ delivered' = [delivered EXCEPT ![T.n] = Append(@, T.ev)]
   /\ buf' = [buf EXCEPT ![T.n] = T.buf]
-  /\ Same(<<st, par, kids, cur, todo, stopReq, published, start, obs, ended, timeouts, blocked>>)
+  /\ Same(<<st, par, kids, cur, todo, stopReq, published, start, obs, ended, timeouts, blocked, busy>>)
 
 OStop ==  \* case err := <-b.lc.ShutdownRequest()
   /\ Is("stop")
@@ -73,42 +76,42 @@ OStop ==  \* case err := <-b.lc.ShutdownRequest()
                                  ELSE IF c \in kids[T.n] /\ st[c] = "run" THEN TRUE ELSE stopReq[c]]
   /\ todo' = [todo EXCEPT ![par[T.n]] = @ \ {T.n}]
   /\ cur' = Norm(cur, todo')
-  /\ Same(<<par, kids, buf, published, delivered, start, obs, ended, timeouts, blocked>>)
+  /\ Same(<<par, kids, buf, published, delivered, start, obs, ended, timeouts, blocked, busy>>)
 
 OUnsub ==  \* case sub := <-b.unsubch, or the drain loop after the select loop
   /\ Is("unsub")
   /\ kids' = [kids EXCEPT ![T.n] = @ \ {T.c}]
   /\ st' = [st EXCEPT ![T.c] = "done"]
-  /\ Same(<<par, buf, cur, todo, stopReq, published, delivered, start, obs, ended, timeouts, blocked>>)
+  /\ Same(<<par, buf, cur, todo, stopReq, published, delivered, start, obs, ended, timeouts, blocked, busy>>)
 
 ODone ==  \* end of run(); for a subscriber the parent's "unsub" line already made it done
   /\ Is("done")
   /\ st' = IF T.n = Root THEN [st EXCEPT ![Root] = "done"] ELSE st
-  /\ Same(<<par, kids, buf, cur, todo, stopReq, published, delivered, start, obs, ended, timeouts, blocked>>)
+  /\ Same(<<par, kids, buf, cur, todo, stopReq, published, delivered, start, obs, ended, timeouts, blocked, busy>>)
 
 \* ---- driver lines ----
 
 OCloseCall ==  \* a goroutine is about to call Close() on T.n
   /\ Is("closecall")
   /\ stopReq' = IF st[T.n] = "run" THEN [stopReq EXCEPT ![T.n] = TRUE] ELSE stopReq
-  /\ Same(<<st, par, kids, buf, cur, todo, published, delivered, start, obs, ended, timeouts, blocked>>)
+  /\ Same(<<st, par, kids, buf, cur, todo, published, delivered, start, obs, ended, timeouts, blocked, busy>>)
 
 ORead ==  \* a reader took T.ev from T.n's Events() channel, or gave up waiting for an owed event
   /\ Is("read")
   /\ obs' = IF T.flag = "ok" THEN [obs EXCEPT ![T.n] = Append(@, T.ev)] ELSE obs
   /\ timeouts' = IF T.flag = "ok" THEN timeouts ELSE timeouts \cup {T.n}
-  /\ Same(<<vars, ended, blocked>>)
+  /\ Same(<<vars, ended, blocked, busy>>)
 
 ORet ==  \* a call returned, or was given up as blocked
   /\ Is("pubret") \/ Is("subret") \/ Is("closeret")
   /\ blocked' = IF T.flag = "blocked" THEN blocked \cup {<<T.k, T.n>>} ELSE blocked
-  /\ Same(<<vars, obs, ended, timeouts>>)
+  /\ Same(<<vars, obs, ended, timeouts, busy>>)
 
 OCall == /\ Is("pubcall") \/ Is("subcall")
-         /\ Same(<<vars, obs, ended, timeouts, blocked>>)
+         /\ Same(<<vars, obs, ended, timeouts, blocked, busy>>)
 
 OEnd == /\ Is("end") /\ ended' = TRUE
-        /\ Same(<<vars, obs, timeouts, blocked>>)
+        /\ Same(<<vars, obs, timeouts, blocked, busy>>)
 
 TNext == /\ Step
          /\ \/ ONew \/ ORecv \/ OFwdone \/ OEmit \/ OStop \/ OUnsub \/ ODone
@@ -128,8 +131,13 @@ ReadersOK == \A s \in Subs : st[s] # "unused" =>
 ReaderMatchesLoop == \A s \in Subs :
   LET o == obs[s] d == delivered[s] IN
     \/ IsPrefix(o, d)
-    \/ /\ Len(o) = Len(d) + 1 /\ IsPrefix(d, o)
-       /\ buf[s] # <<>> /\ o[Len(o)] = Head(buf[s])
+    \/ Len(o) = Len(d) + 1 /\ IsPrefix(d, o)
+
+(* Bus!NoLoss speaks about loop states between iterations; a "recv" line is logged in the middle *)
+(* of one (before the fan-out), so the premise also requires that no loop is between its "recv" *)
+(* and "fwdone" lines -- however an implementation orders buffering, hand-over and fan-out       *)
+(* inside the iteration.                                                                         *)
+TraceNoLoss == busy = {} => NoLoss
 
 (* at "end" every live subscriber has been read up to the sentinel: nothing owed is missing     *)
 EndComplete == ended => \A s \in Subs : Live(s) =>
